@@ -145,7 +145,7 @@ Proof.
     split; intros S; try intros _;
       (apply andb_true_iff in S as [S S2]; apply andb_true_iff in S as [S S1]; apply andb_true_iff in S as [C1 C2];
        rewrite (A1 S1 C1), (A2 S2 C2); reflexivity).
-  - destruct IHe as [_ B]. unfold norm in B. split; intros S; try intros _; rewrite (B S); reflexivity.
+  - split; intros S; discriminate S.
 Qed.
 
 Theorem norm_paren_safe e : paren_safe e = true -> norm e = allpar e.
